@@ -146,6 +146,8 @@ pub struct Module {
     /// a non-main module whose check function is itself called `start` (as the project's own
     /// test files do): only the main file's `start` is the program's entry point
     pub own_start: bool,
+    /// a module file that holds nothing at all (a split in which one file got no globals): its whole text
+    pub blank: Option<String>,
 }
 
 impl Module {
@@ -265,6 +267,11 @@ const DIRS: &[&str] = &["", "", "da/", "db/", "da/dc/"];
 const GLOBAL_POOL: &[&str] = &["qva", "qvb", "qvc", "qvd"];
 
 fn render_module(m: &Module, is_main: bool) -> String {
+    if let Some(b) = &m.blank {
+        if m.raw_body.is_empty() && m.raw_top.is_empty() {
+            return b.clone();
+        }
+    }
     let mut s = String::new();
     for i in &m.imports {
         s.push_str(&i.line());
@@ -412,6 +419,7 @@ pub fn generate(seed: u64) -> Project {
         raw_body: vec![],
         raw_top: vec![],
         own_start: false,
+        blank: None,
     }];
     let mut used_paths: BTreeSet<String> = BTreeSet::new();
     used_paths.insert("main.sy".into());
@@ -431,12 +439,21 @@ pub fn generate(seed: u64) -> Project {
             if own_start {
                 features.insert("non_main_start");
             }
-            modules.push(Module { rel, globals: vec![], imports: vec![], uses: vec![], raw_body: vec![], raw_top: vec![], own_start });
+            let blank = if r.chance(1, 8) {
+                features.insert("blank_module");
+                Some(r.pick(&["", "\n", "   \n\n", "\t\n", "// nothing here yet\n"]).to_string())
+            } else {
+                None
+            };
+            modules.push(Module { rel, globals: vec![], imports: vec![], uses: vec![], raw_body: vec![], raw_top: vec![], own_start: own_start && blank.is_none(), blank });
         }
     }
 
     // ---- globals: small shared name pool, so the same name means different things in different modules
     for mi in 0..modules.len() {
+        if modules[mi].blank.is_some() {
+            continue;
+        }
         let k = r.range(1, 3);
         let mut names: Vec<&str> = GLOBAL_POOL.to_vec();
         r.shuffle(&mut names);
@@ -491,6 +508,9 @@ pub fn generate(seed: u64) -> Project {
     // ---- import edges (cycles and diamonds welcome)
     let mut alias_counter = 0;
     for f in 0..modules.len() {
+        if modules[f].blank.is_some() {
+            continue;
+        }
         let max_edges = (modules.len() - 1).min(3);
         let k = if f == 0 { r.range(max_edges.min(1), max_edges) } else { r.range(0, max_edges) };
         let mut targets: Vec<usize> = (0..modules.len()).filter(|t| *t != f).collect();
@@ -779,6 +799,9 @@ pub fn generate(seed: u64) -> Project {
         tr.shuffle(&mut order);
         'outer: for which in order {
             let f = *tr.pick(&loaded);
+            if modules[f].blank.is_some() {
+                continue;
+            }
             let b = model_bindings(&modules, f);
             match which {
                 0 => {
